@@ -141,7 +141,7 @@ def judge(case, args, res):
     return None
 
 
-HOSTS = ['', 'a', 'a.b', 'A-1.x', '1.2.3.4', '[::1]', '[1:2::3]', '[', '[]', ']', 'a]', '[::1', '[::1]]', '[::1]x', 'é', 'a b', 'a_b', '.', '-',
+HOSTS = ['[::1]é', '[::1]é1', ']', 'a::1]', 'é::1]', '[é]', '', 'a', 'a.b', 'A-1.x', '1.2.3.4', '[::1]', '[1:2::3]', '[', '[]', ']', 'a]', '[::1', '[::1]]', '[::1]x', 'é', 'a b', 'a_b', '.', '-',
          '@rep:248:a', '@rep:249:a', '@rep:250:a', '@rep:251:a', '@rep:255:a', '@rep:256:a', '@rep:506:a', '@rep:124:é', '@rep:125:é']
 PORTS = ['', ':', ':0', ':80', ':+80', ':-80', ':000080', ':00080', ':65535', ':65536', ':99999', ':123456', ':8a', ': 80', ':80:', ':٣', '::80']
 LOCALS = ['', 'a', 'A', 'a.b=_-/+', 'a b', 'a\x00b', 'é', '~', '@rep:240:a', '@rep:250:a']
